@@ -164,4 +164,38 @@ def run(case):
         tol = 1e-7 if zoo.base_of(cls) not in ("SparsePCA",) else 1e-6
         if err > tol:
             F.append(Finding("oracle", "transform_training_eq_scores", cc, f"field {i}: transform(X_fit) differs from scores() by rel {err:.2e} (normalized={case['normalized']}, cfg={cfg}, rot={rot_cfg})"))
+    # the same holds for an object that is fitted AGAIN (on other numbers) after it has been used for a transform: nothing computed
+    # for the first fit may survive into the second one (model objects and rotator objects alike)
+    if case["mseed"] % 2 == 0 and not F:
+        try:
+            dataB, dimB = build(dict(case, mseed=case["mseed"] + 17))
+            k_ = zoo.kind(cls)
+            if k_ in ("rot_single", "rot_cross"):
+                baseB = zoo.construct(zoo.base_of(cls) if False else {"EOFRotator": "EOF", "ComplexEOFRotator": "ComplexEOF", "HilbertEOFRotator": "HilbertEOF"}.get(cls, zoo.CROSS_ROT.get(cls, cls)), cfg)
+                if k_ == "rot_single":
+                    baseB.fit(dataB, dimB)
+                else:
+                    baseB.fit(dataB[0], dataB[1], dimB)
+                m.fit(baseB)
+            else:
+                zoo.fit(cls, dataB, dimB, cfg, model=m)
+            scB = zoo.scores(cls, m, **kw)
+            tfB = zoo.transform(cls, m, dataB, **kw)
+            for i, (s_, t_) in enumerate(zip(scB, tfB)):
+                checks += 1
+                s2, t2 = xr.align(s_, t_.transpose(*s_.dims), join="inner")
+                a, b = np.asarray(s2.values), np.asarray(t2.values)
+                mask = ~(np.isnan(a) | np.isnan(b))
+                if mask.any():
+                    err = float(np.abs(a[mask] - b[mask]).max() / max(float(np.abs(a[mask]).max()), 1e-300))
+                    if err > (1e-7 if zoo.base_of(cls) not in ("SparsePCA",) else 1e-6):
+                        F.append(Finding("oracle", "transform_training_eq_scores", cc + "|refit", f"field {i}: after fit(A), transform, fit(B) on the same object: transform(B) differs from scores() by rel {err:.2e}"))
+        except RuntimeError as e:
+            if "did not converge" not in str(e):
+                F.append(Finding("oracle", "transform_training_eq_scores", cc + "|refit|raises", f"{type(e).__name__}: {str(e)[:160]}"))
+        except ValueError as e:
+            if not ("rank" in str(e) or "n_modes" in str(e) or "n_components must be less" in str(e)):
+                F.append(Finding("oracle", "transform_training_eq_scores", cc + "|refit|raises", f"{type(e).__name__}: {str(e)[:160]}"))
+        except Exception as e:  # noqa: BLE001
+            F.append(Finding("oracle", "transform_training_eq_scores", cc + "|refit|raises", f"{type(e).__name__}: {str(e)[:160]}"))
     return {"findings": F, "info": {"oracle_checks": {"fields": checks}, "dist": {"cls": cls, "struct": case["struct"], "normalized": case["normalized"]}}}
